@@ -401,3 +401,8 @@ Definition shraw_close (w : shraw) : result (list slot * nat) :=
   dor pi <- shraw_read_i1 w SK_plate_ids;
   dor ci <- shraw_attr w SK_current_index;
   if (length sc =? length pi)%nat && (0 <=? ci) then Ok (combine pi sc, Z.to_nat ci) else Err 32.
+
+(* ---- SizeScorer.score (scoring/size.py; link in Proofs/C06SourceSize.v): every candidate's score is the number of rows of
+   its plate (an int), in the order of the plates dict ---- *)
+Definition size_scorer : scorer_fn :=
+  fun plates => map (fun kp => (fst kp, Z.of_nat (length (snd kp)))) plates.
